@@ -1001,6 +1001,11 @@ hwloc_distrib(hwloc_topology_t topology,
   tot_weight = 0;
   for (i = 0; i < n_roots; i++)
     tot_weight += (unsigned) hwloc_bitmap_weight(roots[i]->cpuset);
+  if (!tot_weight) {
+    /* no CPU below these roots, nothing could be stored in the output array */
+    errno = EINVAL;
+    return -1;
+  }
 
   for (i = 0, given = 0, givenweight = 0; i < n_roots; i++) {
     unsigned chunk, weight;
